@@ -632,3 +632,42 @@ def bom_scenarios():
     for post in ("﻿", " \t", "\n\n﻿"):
         out.append(Scenario("A B\n0 $" + post, [], mode="parse", render=True, note="text ending with %r" % post))
     return out
+
+
+@obligation("C09/attached-source-is-the-stored-text", profiles=("dev",),
+            desc="dig::TestCaseDescription::named_source: the source attached to a load error is the stored source text itself "
+                 "(string identity) - the text load_test parses and whose offsets the error's locations are")
+def attached_source(O):
+    from ..itermodels import str_id, _str_node
+    from .common import initial
+    from . import batteries as B_
+    m = O.mir
+    fn = O.find("::named_source")
+    eng = O.engine()
+    eng.keep_events(r"NamedSource")
+    paths = O.explore(eng, fn)
+    n = 0
+    bat = [s_ for s_ in B_.dig_battery() if s_.expect.get("load") == "err"]
+    for p in paths:
+        eng.focus(p)
+        if p.outcome != "return":
+            continue
+        ns = p.calls(r"NamedSource.*::new$")
+        facts = {"site": "named_source", "what": "attached source"}
+        if len(ns) != 1:
+            O.fail_path(p, "named_source builds %d sources" % len(ns), facts, bat, B_.dig_judge)
+            continue
+        n += 1
+        me = eng.deref(p.args.fields[1])
+        want = str_id(eng, _str_node(eng, eng.field(me, m.fidx("TestCaseDescription", "source"))))
+        # the argument is a clone of the field: clones keep the identity of the contents
+        try:
+            got = str_id(eng, _str_node(eng, ns[0].args[1]))
+        except Exception:
+            got = None
+        if got is None:
+            O.fail_path(p, "named_source attaches something that is not the stored string", facts, bat, B_.dig_judge)
+            continue
+        O.prove(p, got == want, "the attached source is the stored source text", facts, bat, B_.dig_judge)
+    if n == 0:
+        O.inconclusive("vacuous: named_source never builds a source")
